@@ -67,6 +67,8 @@ func (o Op) String() string {
 		return fmt.Sprintf("loadmark(p%d,off=%d,len=%d,s%d)", o.P, o.Off, o.Len, o.Seed)
 	case "reopen":
 		return fmt.Sprintf("reopen(max=%d,flags=%d,prealloc=%v)", o.MaxSize, o.Flags, o.Prealloc)
+	case "fault":
+		return fmt.Sprintf("fault(%s,+%d,x%d)", [...]string{"write", "sync", "truncate", "mmap", "size", "shortwrite"}[o.P%6], o.N, o.Len)
 	case "rbegin", "rread", "rclose":
 		return fmt.Sprintf("%s(r%d,p%d)", o.Kind, o.R, o.P)
 	}
@@ -126,6 +128,11 @@ type Engine struct {
 	// KeepReaders: commit does not close open readers first (the campaign closes them from
 	// another goroutine while Commit waits for the exclusive lock).
 	KeepReaders bool
+
+	// DetFlush: before Flush and Commit the dirty pages are flushed one by one in ascending id
+	// order, so that the assignment of overwrite pages does not depend on Go's map iteration order
+	// (needed where two executions are compared exactly).
+	DetFlush bool
 
 	Failures []string // oracle violations
 	Log      []string // executed ops with results
@@ -309,6 +316,30 @@ func (e *Engine) page(id uint64) (*txfile.Page, error) {
 	}
 	e.txPages[id] = p
 	return p, nil
+}
+
+func (e *Engine) detFlush() error {
+	if !e.DetFlush {
+		return nil
+	}
+	ids := make([]uint64, 0, len(e.txW))
+	for id, b := range e.txW {
+		if b != nil && !e.txFlushed[id] {
+			ids = append(ids, id)
+		}
+	}
+	sort.Slice(ids, func(i, j int) bool { return ids[i] < ids[j] })
+	for _, id := range ids {
+		p, err := e.page(id)
+		if err != nil {
+			return err
+		}
+		if err := p.Flush(); err != nil {
+			return err
+		}
+		e.txFlushed[id] = true
+	}
+	return nil
 }
 
 func (e *Engine) resetTx() {
@@ -549,6 +580,9 @@ func (e *Engine) apply(op Op) Result {
 		if !needTx() {
 			return Result{Skipped: true}
 		}
+		if err := e.detFlush(); err != nil {
+			return Result{Err: ErrKind(err)}
+		}
 		if err := e.Tx.Flush(); err != nil {
 			return Result{Err: ErrKind(err)}
 		}
@@ -601,6 +635,12 @@ func (e *Engine) apply(op Op) Result {
 		if len(e.readers) > 0 && !e.KeepReaders {
 			e.apply(Op{Kind: "rcloseall"})
 		}
+		if err := e.detFlush(); err != nil {
+			// out of space while flushing: the transaction can only be abandoned
+			e.Tx.Close()
+			e.resetTx()
+			return Result{Err: ErrKind(err)}
+		}
 		e.Disk.Marker("commit-begin")
 		err := e.Tx.Commit()
 		if err != nil {
@@ -636,6 +676,19 @@ func (e *Engine) apply(op Op) Result {
 			e.fail("%s failed: %v", op.Kind, err)
 			return Result{Err: ErrKind(err)}
 		}
+		return Result{}
+
+	case "fault":
+		// fail the N-th next call (0 = the very next) of a kind, for Len consecutive calls
+		kinds := map[string]simdisk.OpKind{"write": simdisk.OpWrite, "sync": simdisk.OpSync, "truncate": simdisk.OpTruncate,
+			"mmap": simdisk.OpMMap, "size": simdisk.OpSize, "shortwrite": simdisk.OpWrite}
+		kname := [...]string{"write", "sync", "truncate", "mmap", "size", "shortwrite"}[op.P%6]
+		k := kinds[kname]
+		l := op.Len
+		if l <= 0 {
+			l = 1
+		}
+		e.Disk.SetFaults([]simdisk.FaultRule{{Kind: k, From: e.Disk.Count(k) + op.N, Len: l, Short: kname == "shortwrite"}})
 		return Result{}
 
 	case "verify":
@@ -691,7 +744,8 @@ func (e *Engine) apply(op Op) Result {
 		if err := e.File.Close(); err != nil {
 			e.fail("File.Close failed: %v", err)
 		}
-		opts := e.Cfg.Options()
+		// a plain reopen passes no options at all: everything is read from the file header
+		opts := txfile.Options{Observer: e.Cfg.Observer}
 		if op.Flags != 0 {
 			opts.Flags = txfile.Flag(op.Flags)
 			opts.MaxSize = op.MaxSize
